@@ -7,11 +7,12 @@ Property theorems only (helpers are in `Gotlcp.Lemmas.C06Tx` / `C06Rx`).  The mo
 `writeRecordLocked`, ciphertext lengths of `encrypt`) and `Gotlcp.Model.RecordRx` (receiver:
 `readFromUntil`/`atLeastReader`/`rawInput`, `readRecordOrCCS`, `Conn.Read`; and
 `Model.RecordRxHandshake`: the same receive path while the handshake is still running,
-`readFinished`, and the hand-over to `Conn.Read` at the end of `handshake()`), instantiated
+`readFinished`, and the hand-over to `Conn.Read` at the end of `handshake()`; and
+`Model.RecordDuplex`: both directions of one endpoint, `CloseWrite`/`closeNotify`), instantiated
 with the regenerated source facts (`factsTx`, `factsRx`).  Statements quantify over every
 write size and content, every sender state (`bytesSent`, `packetsSent`), dynamic record
-sizing on or off, every protection mode, every chunking of the wire and every sequence of
-read-buffer sizes.  Record protection itself is a parameter (`dec`), see C04.
+sizing on or off, every protection mode, every chunking of the wire — the end of the transport's
+stream reported with the last chunk or after it — and every sequence of read-buffer sizes.  Record protection itself is a parameter (`dec`), see C04.
 -/
 import Gotlcp.Lemmas.C06Tx
 import Gotlcp.Lemmas.C06Rx
@@ -35,16 +36,21 @@ open Gotlcp.Lemmas.C06Compose
 open Gotlcp.Lemmas.C06Hs
 open Gotlcp
 
-/-- the facts of the source the other theorems rely on -/
+/-- the facts of the source the other theorems rely on.  The statements of
+`maxPayloadSizeForWrite` (early returns, base expression, what each cipher case subtracts, the
+`pkt > 1000` guard, the ramp and the cap) are NOT pinned by text-matching facts any more (the
+informational `Facts.tlcp.mps*`): the function and `halfConn.explicitNonceLen` are translated on
+every run and `Gotlcp.Tie.RecordSize.Tlcp` proves the translated text equal to `maxPayload factsTx`
+for all inputs (`C06_src_*` below, with the guard literal `Model.RecordTx.treePktGuard`), so a
+renaming or an equivalent re-arrangement passes and a semantic change breaks the tie.  Pinned here:
+the named constants (evaluated by go/types, not matched as text) and the statements of the code that
+is NOT translated (split loop, `encrypt`, the receive path, `Conn.Read`, the AEAD wrapper). -/
 theorem C06_facts :
     Facts.tlcp.maxPlaintext = 16384 ∧ Facts.tlcp.maxCiphertext = 18432 ∧
     Facts.tlcp.recordHeaderLen = 5 ∧ Facts.tlcp.tcpMSSEstimate = 1208 ∧
-    Facts.tlcp.recordSizeBoostThreshold = 131072 ∧ Facts.tlcp.mpsPktGuard = 1000 ∧
+    Facts.tlcp.recordSizeBoostThreshold = 131072 ∧
     Facts.tlcp.aeadNonceLength = 12 ∧ Facts.tlcp.noncePrefixLength = 4 ∧
     factsTx.blockSize = 16 ∧ factsTx.macSize = 32 ∧
-    Facts.tlcp.mpsStaticWhenDisabledOrNotAppData = true ∧ Facts.tlcp.mpsBoost = true ∧
-    Facts.tlcp.mpsBase = true ∧ Facts.tlcp.mpsAeadSubtractsOverhead = true ∧
-    Facts.tlcp.mpsCbcRoundsThenMac = true ∧ Facts.tlcp.mpsRamp = true ∧
     Facts.tlcp.wrSplitLoop = true ∧ Facts.tlcp.wrCountsBytesSent = true ∧
     Facts.tlcp.encCbcPadding = true ∧ Facts.tlcp.encExplicitNonce = true ∧
     Facts.tlcp.aeadExplicitIsNonceMinusPrefix = true ∧
@@ -59,6 +65,15 @@ theorem C06_facts :
     -- `c.rawInput` (what `readFromUntil` buffered ahead is not the handshake's to discard)
     Facts.tlcp.rxRawInputUsers =
       ["Conn.Read", "Conn.newRecordHeaderError", "Conn.readFromUntil", "Conn.readRecordOrCCS"] ∧
+    -- `atLeastReader.Read` as transcribed in `Model.RecordRx.atLeast`: the transport's io.EOF is an
+    -- error only while bytes are missing (bytes that arrive together with io.EOF count)
+    Facts.tlcp.rxAtLeastStmts = true ∧ Facts.tlcp.rxAtLeastShortOnlyWhenShort = true ∧
+    -- frame condition of the half-close: the library moves a transport deadline on its own in
+    -- `closeNotify` only, and only the write deadline (the other three are the pass-through setters)
+    Facts.tlcp.rxDeadlineCalls =
+      ["Conn.SetDeadline:SetDeadline", "Conn.SetReadDeadline:SetReadDeadline",
+       "Conn.SetWriteDeadline:SetWriteDeadline", "Conn.closeNotify:SetWriteDeadline",
+       "Conn.closeNotify:SetWriteDeadline"] ∧
     Facts.missing = [] := by decide
 
 /-! ### sender -/
@@ -180,51 +195,83 @@ example : (writeRecord factsTx true .aead true ⟨7, 7⟩ (List.replicate 300 7)
 
 /-! ### receiver -/
 
-theorem factsRx_ok : ParamsOK factsRx := ⟨by decide, by decide, by decide, by decide⟩
+theorem factsRx_ok : ParamsOK factsRx := ⟨by decide, by decide, by decide, by decide, by decide⟩
 
 /-- **Segmentation independence.** Two transports that carry the same bytes — chunked in any
-two ways — yield the same sequence of records and the same final condition. -/
-theorem C06_segmentation_independent (fuel : Nat) (r1 r2 : Raw) (h : r1.all = r2.all) :
+two ways, each reporting the end of the stream with its last chunk (`eofWithLast`: `n > 0` together
+with `io.EOF`) or by a separate empty read — yield the same sequence of records and the same final
+condition.  (`expired = false`: the application has not let the read deadline pass.) -/
+theorem C06_segmentation_independent (fuel : Nat) (r1 r2 : Raw)
+    (h1 : r1.expired = false) (h2 : r2.expired = false) (h : r1.all = r2.all) :
     frames factsRx fuel r1 = frames factsRx fuel r2 :=
-  frames_indep factsRx (by decide) fuel r1 r2 h
+  frames_indep factsRx (by decide) (by decide) fuel r1 r2 h1 h2 h
 
 /-- in particular any chunking gives what parsing the concatenation gives, and so does
 delivering the stream one byte at a time -/
-theorem C06_segmentation_concat (fuel : Nat) (chunks : List Bytes) :
-    frames factsRx fuel ⟨[], chunks⟩ = frames factsRx fuel ⟨[], [chunks.flatten]⟩ ∧
-    frames factsRx fuel ⟨[], chunks.flatten.map ([·])⟩ = frames factsRx fuel ⟨[], [chunks.flatten]⟩ := by
+theorem C06_segmentation_concat (fuel : Nat) (chunks : List Bytes) (e : Bool) :
+    frames factsRx fuel { raw := [], chunks := chunks, eofWithLast := e } =
+      frames factsRx fuel { raw := [], chunks := [chunks.flatten] } ∧
+    frames factsRx fuel { raw := [], chunks := chunks.flatten.map ([·]), eofWithLast := e } =
+      frames factsRx fuel { raw := [], chunks := [chunks.flatten] } := by
   constructor
-  · apply C06_segmentation_independent; simp [Raw.all]
-  · apply C06_segmentation_independent
+  · apply C06_segmentation_independent _ _ _ rfl rfl; simp [Raw.all]
+  · apply C06_segmentation_independent _ _ _ rfl rfl
     simp only [Raw.all, List.nil_append, List.flatten_cons, List.flatten_nil, List.append_nil]
     generalize chunks.flatten = w
     induction w with
     | nil => rfl
     | cons a l ih => simp [ih]
 
+/-- **The end of the transport's stream.**  `readFromUntil(n)` (`atLeastReader.Read` under
+`bytes.Buffer.ReadFrom`) on any receive half whose read deadline has not passed — any bytes already
+buffered, any chunks to come, the end of the stream reported WITH the last chunk (`n > 0` and
+`io.EOF` in the same transport read, which io.Reader allows) or after it: it succeeds exactly when
+the requested bytes exist, then holds at least `n` bytes, and no byte is lost or reordered between
+the buffer and the transport.  In particular the bytes that arrive together with `io.EOF` count. -/
+theorem C06_read_from_until (r : Raw) (hx : r.expired = false) (n : Nat) :
+    (r.fill factsRx n).2.2 = decide (n ≤ r.all.length) ∧
+    (r.fill factsRx n).1 ++ (r.fill factsRx n).2.1.flatten = r.all ∧
+    ((r.fill factsRx n).2.2 = true → n ≤ (r.fill factsRx n).1.length) := by
+  have hg : factsRx.eofShortOnlyWhenShort = true := by decide
+  simp only [Raw.fill, hg, hx]
+  exact ⟨fill_ok _ _ _ _, fill_all _ _ _ _ _ _, fill_len _ _ _ _⟩
+
+/-- what the guard in `atLeastReader.Read` is for: a reader that turns EVERY `io.EOF` of the
+transport into `io.ErrUnexpectedEOF` loses the last records whenever the transport hands over its
+last bytes together with `io.EOF` — the record and the close-notify are completely buffered, yet
+`Read` fails (and keeps failing: the error is latched). -/
+example :
+    let dec : Dec := fun _ _ b => some b
+    let P : RecordRx.Params := { factsRx with eofShortOnlyWhenShort := false }
+    let io : Raw := { raw := [], chunks := [[23, 1, 1, 0, 2], [0xaa, 0xbb, 21, 1, 1, 0, 2, 1, 0]], eofWithLast := true }
+    (reads P dec { io := io } [4, 4]).1 = [([], some .unexpectedEOF), ([], some .unexpectedEOF)] ∧
+    (reads factsRx dec { io := io } [4, 4]).1 = [([0xaa, 0xbb], some .eof), ([], some .eof)] := by decide
+
 /-- **Read with any buffers.** On the stream an honest peer produced (application-data records
-`ps`, then a close-notify iff `closed`, delivered in any chunks), for every sequence of
+`ps`, then a close-notify iff `closed`, delivered in any chunks, the end of the transport's
+stream reported with the last chunk (`e`) or separately), for every sequence of
 non-empty read buffers: what `Read` has handed out so far, plus what is still buffered or to
 come, is the concatenation of the payloads; every `Read` either returns at least one byte
 without error or reports end-of-stream — never another error. -/
 theorem C06_read_any_buffers (dec : Dec) (ta tl cn : UInt8)
     (hta : ta.toNat = Facts.tlcp.recordTypeApplicationData) (htl : tl.toNat = Facts.tlcp.recordTypeAlert)
     (hcn : cn.toNat = Facts.tlcp.alertCloseNotify)
-    (chunks : List Bytes) (ps : List Bytes) (closed : Bool)
+    (chunks : List Bytes) (e : Bool) (ps : List Bytes) (closed : Bool)
     (hh : Honest factsRx dec ta tl cn 0 chunks.flatten ps closed)
     (bufs : List Nat) (hb : ∀ n ∈ bufs, 1 ≤ n) :
-    let r := reads factsRx dec { io := ⟨[], chunks⟩ } bufs
+    let r := reads factsRx dec { io := { raw := [], chunks := chunks, eofWithLast := e } } bufs
     (∃ rest, delivered r.1 ++ rest = ps.flatten) ∧
     (∀ o ∈ r.1, (o.2 = none ∧ 0 < o.1.length) ∨ o.2 = some .eof) := by
   intro r
-  have hinv : Inv factsRx dec ta tl cn ps.flatten ({ io := ⟨[], chunks⟩ } : Rx) [] := by
+  have hinv : Inv factsRx dec ta tl cn ps.flatten
+      ({ io := { raw := [], chunks := chunks, eofWithLast := e } } : Rx) [] := by
     left
-    refine ⟨rfl, ps, closed, ?_, by simp⟩
+    refine ⟨rfl, rfl, ps, closed, ?_, by simp⟩
     simpa [Raw.all] using hh
   obtain ⟨i1, i2, _⟩ := reads_honest factsRx dec factsRx_ok ta tl cn hta htl hcn ps.flatten bufs _ [] hb hinv
   refine ⟨?_, i2⟩
   simp only [List.nil_append] at i1
-  rcases i1 with ⟨_, ps', c, _, hD⟩ | ⟨_, _, hD⟩
+  rcases i1 with ⟨_, _, ps', c, _, hD⟩ | ⟨_, _, hD⟩
   · exact ⟨_, by rw [← hD, List.append_assoc]⟩
   · exact ⟨[], by simpa using hD⟩
 
@@ -235,14 +282,15 @@ of the `Read` that returned the last bytes. -/
 theorem C06_close_after_last (dec : Dec) (ta tl cn : UInt8)
     (hta : ta.toNat = Facts.tlcp.recordTypeApplicationData) (htl : tl.toNat = Facts.tlcp.recordTypeAlert)
     (hcn : cn.toNat = Facts.tlcp.alertCloseNotify)
-    (chunks : List Bytes) (ps : List Bytes) (closed : Bool)
+    (chunks : List Bytes) (e : Bool) (ps : List Bytes) (closed : Bool)
     (hh : Honest factsRx dec ta tl cn 0 chunks.flatten ps closed)
     (bufs : List Nat) (hb : ∀ n ∈ bufs, 1 ≤ n)
-    (heof : ∃ o ∈ (reads factsRx dec { io := ⟨[], chunks⟩ } bufs).1, o.2 = some .eof) :
-    delivered (reads factsRx dec { io := ⟨[], chunks⟩ } bufs).1 = ps.flatten := by
-  have hinv : Inv factsRx dec ta tl cn ps.flatten ({ io := ⟨[], chunks⟩ } : Rx) [] := by
+    (heof : ∃ o ∈ (reads factsRx dec { io := { raw := [], chunks := chunks, eofWithLast := e } } bufs).1, o.2 = some .eof) :
+    delivered (reads factsRx dec { io := { raw := [], chunks := chunks, eofWithLast := e } } bufs).1 = ps.flatten := by
+  have hinv : Inv factsRx dec ta tl cn ps.flatten
+      ({ io := { raw := [], chunks := chunks, eofWithLast := e } } : Rx) [] := by
     left
-    refine ⟨rfl, ps, closed, ?_, by simp⟩
+    refine ⟨rfl, rfl, ps, closed, ?_, by simp⟩
     simpa [Raw.all] using hh
   obtain ⟨_, _, i3⟩ := reads_honest factsRx dec factsRx_ok ta tl cn hta htl hcn ps.flatten bufs _ [] hb hinv
   simpa using i3 heof
@@ -252,15 +300,15 @@ end-of-stream after at most `|stream| + 1` reads — and by then has everything 
 theorem C06_read_eventually (dec : Dec) (ta tl cn : UInt8)
     (hta : ta.toNat = Facts.tlcp.recordTypeApplicationData) (htl : tl.toNat = Facts.tlcp.recordTypeAlert)
     (hcn : cn.toNat = Facts.tlcp.alertCloseNotify)
-    (chunks : List Bytes) (ps : List Bytes) (closed : Bool)
+    (chunks : List Bytes) (e : Bool) (ps : List Bytes) (closed : Bool)
     (hh : Honest factsRx dec ta tl cn 0 chunks.flatten ps closed)
     (bufs : List Nat) (hb : ∀ n ∈ bufs, 1 ≤ n) (hlen : ps.flatten.length < bufs.length) :
-    delivered (reads factsRx dec { io := ⟨[], chunks⟩ } bufs).1 = ps.flatten := by
-  by_cases heof : ∃ o ∈ (reads factsRx dec { io := ⟨[], chunks⟩ } bufs).1, o.2 = some .eof
-  · exact C06_close_after_last dec ta tl cn hta htl hcn chunks ps closed hh bufs hb heof
+    delivered (reads factsRx dec { io := { raw := [], chunks := chunks, eofWithLast := e } } bufs).1 = ps.flatten := by
+  by_cases heof : ∃ o ∈ (reads factsRx dec { io := { raw := [], chunks := chunks, eofWithLast := e } } bufs).1, o.2 = some .eof
+  · exact C06_close_after_last dec ta tl cn hta htl hcn chunks e ps closed hh bufs hb heof
   · -- no end-of-stream: every read returned at least one byte, more than were ever sent
     exfalso
-    obtain ⟨⟨rest, hpre⟩, hall⟩ := C06_read_any_buffers dec ta tl cn hta htl hcn chunks ps closed hh bufs hb
+    obtain ⟨⟨rest, hpre⟩, hall⟩ := C06_read_any_buffers dec ta tl cn hta htl hcn chunks e ps closed hh bufs hb
     have hcount : ∀ (outs : List (Bytes × Option RxErr)),
         (∀ o ∈ outs, (o.2 = none ∧ 0 < o.1.length) ∨ o.2 = some .eof) →
         (¬ ∃ o ∈ outs, o.2 = some .eof) → outs.length ≤ (delivered outs).length := by
@@ -296,7 +344,7 @@ example :
     let dec : Dec := fun _ _ b => some b
     let wire : Bytes := [23, 1, 1, 0, 2, 0xaa, 0xbb] ++ [23, 1, 1, 0, 3, 1, 2, 3] ++ [21, 1, 1, 0, 2, 1, 0]
     Honest factsRx dec 23 21 0 0 wire [[0xaa, 0xbb], [1, 2, 3]] true ∧
-    (reads factsRx dec { io := ⟨[], [[23, 1, 1], [0, 2, 0xaa, 0xbb, 23, 1], [1, 0, 3, 1, 2, 3, 21, 1, 1, 0, 2, 1, 0]]⟩ } [1, 2, 3, 1]).1
+    (reads factsRx dec { io := { raw := [], chunks := [[23, 1, 1], [0, 2, 0xaa, 0xbb, 23, 1], [1, 0, 3, 1, 2, 3, 21, 1, 1, 0, 2, 1, 0]] } } [1, 2, 3, 1]).1
       = [([0xaa], none), ([0xbb], none), ([1, 2, 3], some .eof), ([], some .eof)] := by
   intro dec wire
   refine ⟨⟨[0xaa, 0xbb], [23, 1, 1, 0, 3, 1, 2, 3] ++ [21, 1, 1, 0, 2, 1, 0], by decide, rfl, by decide, by decide,
@@ -373,8 +421,9 @@ theorem wire_honest {k : Kind} (C : Codec k) (closed : Bool) : ∀ (recs : List 
 /-- **Stream identity (sender ∘ transport ∘ receiver).**  For every list of `Write`s (any
 sizes and contents), every sender state, dynamic record sizing on or off, every protection mode
 with any protection satisfying `Codec`, closing after the last write or just shutting the
-transport, every way the transport chunks the exact byte stream, and every sequence of
-non-empty read buffers:
+transport, every way the transport chunks the exact byte stream, the end of that stream reported
+together with the last chunk (`e = true`: `n > 0` and `io.EOF` in one transport read) or by a
+separate empty read, and every sequence of non-empty read buffers:
 * every `Write` succeeds and returns its full length;
 * what the peer's `Read`s return, concatenated, is a prefix of the concatenation of the writes
   — nothing lost, duplicated or reordered — and each `Read` either yields at least one byte
@@ -385,10 +434,10 @@ Sequence numbers: the sender protects its `i`-th record under sequence number `i
 (`wire`), the receiver presents sequence number `i` to `dec` for the `i`-th record it
 opens (`readOne`); `Codec.roundtrip` is used at equal numbers only. -/
 theorem C06_stream_identity (dynDisabled : Bool) (k : Kind) (C : Codec k) (s : TxState)
-    (ws : List Bytes) (closed : Bool) (chunks : List Bytes) (bufs : List Nat) :
+    (ws : List Bytes) (closed : Bool) (chunks : List Bytes) (e : Bool) (bufs : List Nat) :
     ∃ recs s', writes factsTx dynDisabled k s ws = some (recs, ws.map (·.length), s') ∧
       (chunks.flatten = streamBytes C recs closed → (∀ n ∈ bufs, 1 ≤ n) →
-        let r := reads factsRx C.dec { io := ⟨[], chunks⟩ } bufs
+        let r := reads factsRx C.dec { io := { raw := [], chunks := chunks, eofWithLast := e } } bufs
         (∃ rest, delivered r.1 ++ rest = ws.flatten) ∧
         (∀ o ∈ r.1, (o.2 = none ∧ 0 < o.1.length) ∨ o.2 = some .eof) ∧
         ((∃ o ∈ r.1, o.2 = some .eof) → delivered r.1 = ws.flatten) ∧
@@ -403,15 +452,84 @@ theorem C06_stream_identity (dynDisabled : Bool) (k : Kind) (C : Codec k) (s : T
     have := wire_honest C closed recs 0 hall
     rw [hchunks]
     simpa [streamBytes] using this
-  obtain ⟨h1, h2⟩ := C06_read_any_buffers C.dec appByte alertByte closeNotifyByte hta htl hcn chunks recs closed hh bufs hb
+  obtain ⟨h1, h2⟩ := C06_read_any_buffers C.dec appByte alertByte closeNotifyByte hta htl hcn chunks e recs closed hh bufs hb
   rw [hflat] at h1
   refine ⟨h1, h2, ?_, ?_⟩
   · intro heof
     rw [← hflat]
-    exact C06_close_after_last C.dec appByte alertByte closeNotifyByte hta htl hcn chunks recs closed hh bufs hb heof
+    exact C06_close_after_last C.dec appByte alertByte closeNotifyByte hta htl hcn chunks e recs closed hh bufs hb heof
   · intro hlen
     rw [← hflat] at hlen ⊢
-    exact C06_read_eventually C.dec appByte alertByte closeNotifyByte hta htl hcn chunks recs closed hh bufs hb hlen
+    exact C06_read_eventually C.dec appByte alertByte closeNotifyByte hta htl hcn chunks e recs closed hh bufs hb hlen
+
+/-! ### the two directions are independent: half-close -/
+
+open Gotlcp.Model.RecordDuplex in
+/-- **`CloseWrite` leaves the receive half alone**: no field of it changes, and the transport's
+read deadline is not moved (`Facts.tlcp.rxDeadlineCalls`: `closeNotify` calls `SetWriteDeadline`
+only). -/
+theorem C06_closewrite_frames_read (ep : Endpoint) : (closeWrite factsDuplex ep).2.rx = ep.rx := by
+  have h : factsDuplex.closeNotifyMovesReadDeadline = false := by decide
+  unfold closeWrite
+  split
+  · rfl
+  · simp [h]
+
+open Gotlcp.Model.RecordDuplex in
+theorem run_reads (dec : Dec) : ∀ (ops : List Op) (ep : Endpoint),
+    (run factsRx factsDuplex dec ep ops).1 = (reads factsRx dec ep.rx (readSizes ops)).1 := by
+  intro ops
+  induction ops with
+  | nil => intro ep; rfl
+  | cons op ops ih =>
+    intro ep
+    cases op with
+    | read n => simp only [run, readSizes, reads, RecordDuplex.read, ih]
+    | closeWrite => simp only [run, readSizes, ih, C06_closewrite_frames_read]
+
+open Gotlcp.Model.RecordDuplex in
+/-- **Half-close (request / `CloseWrite` / response).**  One side of a connection performs any
+sequence of `Read`s (non-empty buffers) and, at any points between them — before the first `Read`,
+in the middle of the peer's stream, several times — calls `CloseWrite`; it may also have done so
+before (`sent`).  The peer meanwhile makes any `Write`s and closes or just shuts the transport, and
+the transport cuts the exact byte stream in any way, reporting its end with the last chunk or after
+it.  Then the conclusion of `C06_stream_identity` holds for this direction as if `CloseWrite` had
+never been called: every `Write` of the peer returns its length, the `Read`s deliver a prefix of the
+concatenation of the writes, never an error other than end-of-stream, end-of-stream only after
+everything, and everything once more reads were made than bytes were written.  Shutting down one
+direction does not disturb the other. -/
+theorem C06_half_close (dynDisabled : Bool) (k : Kind) (C : Codec k) (s : TxState)
+    (ws : List Bytes) (closed : Bool) (chunks : List Bytes) (e : Bool) (sent : Bool) (ops : List Op) :
+    ∃ recs s', writes factsTx dynDisabled k s ws = some (recs, ws.map (·.length), s') ∧
+      (chunks.flatten = streamBytes C recs closed → (∀ n ∈ readSizes ops, 1 ≤ n) →
+        let r := run factsRx factsDuplex C.dec
+          { rx := { io := { raw := [], chunks := chunks, eofWithLast := e } }, closeNotifySent := sent } ops
+        (∃ rest, delivered r.1 ++ rest = ws.flatten) ∧
+        (∀ o ∈ r.1, (o.2 = none ∧ 0 < o.1.length) ∨ o.2 = some .eof) ∧
+        ((∃ o ∈ r.1, o.2 = some .eof) → delivered r.1 = ws.flatten) ∧
+        (ws.flatten.length < (readSizes ops).length → delivered r.1 = ws.flatten)) := by
+  obtain ⟨recs, s', hw, hrest⟩ := C06_stream_identity dynDisabled k C s ws closed chunks e (readSizes ops)
+  refine ⟨recs, s', hw, ?_⟩
+  intro hc hb r
+  have hr : r.1 = (reads factsRx C.dec { io := { raw := [], chunks := chunks, eofWithLast := e } } (readSizes ops)).1 :=
+    run_reads C.dec ops _
+  rw [hr]
+  exact hrest hc hb
+
+open Gotlcp.Model.RecordDuplex in
+/-- non-vacuity, and what the theorem excludes.  The peer's stream (two records and a close-notify,
+identity protection) is read with a `CloseWrite` before the first `Read` and another one in the
+middle: exactly what was written, then end-of-stream.  With a `closeNotify` that moved the read
+deadline as well (`SetDeadline` in place of `SetWriteDeadline`) the half-closed side gets nothing:
+every `Read` fails with a timeout. -/
+example :
+    let dec : Dec := fun _ _ b => some b
+    let io : Raw := { raw := [], chunks := [[23, 1, 1, 0, 2, 0xaa], [0xbb, 23, 1, 1, 0, 1, 7, 21, 1, 1, 0, 2, 1, 0]] }
+    let ops : List Op := [.closeWrite, .read 1, .closeWrite, .read 8, .read 8, .read 8]
+    (run factsRx factsDuplex dec { rx := { io := io } } ops).1
+      = [([0xaa], none), ([0xbb], none), ([7], some .eof), ([], some .eof)] ∧
+    (run factsRx ⟨["Conn.closeNotify:SetDeadline", "Conn.closeNotify:SetDeadline"]⟩ dec { rx := { io := io } } ops).1
+      = [([], some .timeout), ([], some .timeout), ([], some .timeout), ([], some .timeout)] := by decide
 
 /-! ### across the end of the handshake -/
 
@@ -433,7 +551,7 @@ end-of-stream, end-of-stream only after the last byte, and everything after enou
 theorem C06_boundary_delivered (dec : Dec) (okFin : Bytes → Bool) (ta tl cn : UInt8)
     (hta : ta.toNat = Facts.tlcp.recordTypeApplicationData) (htl : tl.toNat = Facts.tlcp.recordTypeAlert)
     (hcn : cn.toNat = Facts.tlcp.alertCloseNotify)
-    (io : Raw) (ps : List Bytes) (closed : Bool)
+    (io : Raw) (hx : io.expired = false) (ps : List Bytes) (closed : Bool)
     (hf : HonestFlight factsRx factsHs dec okFin ccsByte hsByte ta tl cn io.all ps closed)
     (bufs : List Nat) (hb : ∀ n ∈ bufs, 1 ≤ n) :
     let r := lastFlightThenReads factsRx factsHs dec okFin { io := io } bufs
@@ -443,7 +561,7 @@ theorem C06_boundary_delivered (dec : Dec) (okFin : Bytes → Bool) (ta tl cn : 
     ((∃ o ∈ r.2, o.2 = some .eof) → delivered r.2 = ps.flatten) := by
   intro r
   obtain ⟨s2, h1, hinv⟩ := lastFlight_honest factsRx factsHs dec okFin factsRx_hsok ccsByte hsByte ta tl cn
-    (by decide) (by decide) ({ io := io } : HsRx) rfl rfl rfl ps closed hf
+    (by decide) (by decide) ({ io := io } : HsRx) rfl rfl rfl hx ps closed hf
   have hr : r = (none, (reads factsRx dec (finishHandshake s2) bufs).1) := by
     show lastFlightThenReads factsRx factsHs dec okFin { io := io } bufs = _
     unfold lastFlightThenReads
@@ -452,7 +570,7 @@ theorem C06_boundary_delivered (dec : Dec) (okFin : Bytes → Bool) (ta tl cn : 
   rw [hr]
   refine ⟨rfl, ?_, i2, ?_⟩
   · simp only [List.nil_append] at i1
-    rcases i1 with ⟨_, ps', c, _, hD⟩ | ⟨_, _, hD⟩
+    rcases i1 with ⟨_, _, ps', c, _, hD⟩ | ⟨_, _, hD⟩
     · exact ⟨_, by rw [← hD, List.append_assoc]⟩
     · exact ⟨[], by simpa using hD⟩
   · intro heof
@@ -514,7 +632,7 @@ once more reads were made than bytes were written. -/
 theorem C06_stream_identity_across_handshake (dynDisabled : Bool) (k : Kind) (C : Codec k) (s : TxState)
     (okFin : Bytes → Bool) (verify : Bytes) (hv : verify.length = Facts.tlcp.finishedVerifyLength)
     (hok : okFin (finishedMsg verify) = true)
-    (ws : List Bytes) (closed : Bool) (io : Raw) (bufs : List Nat) :
+    (ws : List Bytes) (closed : Bool) (io : Raw) (hx : io.expired = false) (bufs : List Nat) :
     ∃ recs s', writes factsTx dynDisabled k s ws = some (recs, ws.map (·.length), s') ∧
       (io.all = flightBytes C (finishedMsg verify) recs closed → (∀ n ∈ bufs, 1 ≤ n) →
         let r := lastFlightThenReads factsRx factsHs C.dec okFin { io := io } bufs
@@ -532,7 +650,7 @@ theorem C06_stream_identity_across_handshake (dynDisabled : Bool) (k : Kind) (C 
   have hf := flight_honest C okFin verify hv hok recs closed hall
   rw [← hio] at hf
   obtain ⟨h0, h1, h2, h3⟩ := C06_boundary_delivered C.dec okFin appByte alertByte closeNotifyByte hta htl hcn
-    io recs closed hf bufs hb
+    io hx recs closed hf bufs hb
   rw [hflat] at h1 h3
   refine ⟨h0, h1, h2, h3, ?_⟩
   intro hlen
@@ -641,7 +759,10 @@ example :
     let chunks : List Bytes := [w.take 3, (w.drop 3).take 3, (w.drop 6).take 30, w.drop 36]
     (writes factsTx false .aead ⟨0, 0⟩ ws).map (·.1) = some recs ∧
     chunks.flatten = w ∧
-    (reads factsRx codecAead.dec { io := ⟨[], chunks⟩ } [2, 1, 5, 5]).1
+    (reads factsRx codecAead.dec { io := { raw := [], chunks := chunks } } [2, 1, 5, 5]).1
+      = [([1, 2], none), ([3], none), ([4, 5], some .eof), ([], some .eof)] ∧
+    -- the same when the transport reports the end of its stream together with the last chunk
+    (reads factsRx codecAead.dec { io := { raw := [], chunks := chunks, eofWithLast := true } } [2, 1, 5, 5]).1
       = [([1, 2], none), ([3], none), ([4, 5], some .eof), ([], some .eof)] := by decide
 
 set_option maxRecDepth 100000 in
@@ -654,7 +775,7 @@ example :
     let verify : Bytes := List.replicate 12 0xab
     let recs : List Bytes := [[1, 2, 3], [4, 5]]
     let w := flightBytes codecAead (finishedMsg verify) recs true
-    let io : Raw := ⟨w.take 3, [(w.drop 3).take (6 + 45 + 7 - 3), (w.drop (6 + 45 + 7)).take 30, w.drop (6 + 45 + 7 + 30)]⟩
+    let io : Raw := { raw := w.take 3, chunks := [(w.drop 3).take (6 + 45 + 7 - 3), (w.drop (6 + 45 + 7)).take 30, w.drop (6 + 45 + 7 + 30)], eofWithLast := true }
     io.all = w ∧
     lastFlightThenReads factsRx factsHs codecAead.dec (fun _ => true) { io := io } [2, 1, 5, 5]
       = (none, [([1, 2], none), ([3], none), ([4, 5], some .eof), ([], some .eof)]) := by decide
@@ -666,10 +787,10 @@ fails on what is left of the first application record. -/
 example :
     let verify : Bytes := List.replicate 12 0xab
     let w := flightBytes codecAead (finishedMsg verify) [[1, 2, 3], [4, 5]] true
-    let io : Raw := ⟨[], [w.take (6 + 45 + 7), w.drop (6 + 45 + 7)]⟩
+    let io : Raw := { raw := [], chunks := [w.take (6 + 45 + 7), w.drop (6 + 45 + 7)] }
     let s1 := (readLastFlight factsRx factsHs codecAead.dec (fun _ => true) { io := io }).2
     s1.io.raw.length = 7 ∧
-    ((reads factsRx codecAead.dec { finishHandshake s1 with io := ⟨[], s1.io.chunks⟩ } [5]).1.map (·.2))
+    ((reads factsRx codecAead.dec { finishHandshake s1 with io := { raw := [], chunks := s1.io.chunks } } [5]).1.map (·.2))
       = [some .badVersion] := by decide
 
 /-! ### the sender's size arithmetic, about the SOURCE TEXT
